@@ -167,6 +167,12 @@ def judge(prop, f, impl, model, spec):
         elif impl != model:
             j.mismatch = "pattern-cache history differs from the verified cache model: impl=%s model=%s" % (impl[:300], model[:300])
         j.nontrivial = True
+    elif prop == "C06" and kind == "cgrowth":
+        if impl.startswith("cgrowth:exponential"):
+            j.viol = "Compile costs exponentially more with every repetition of a construct (expr = the construct, extra = hex(head);n1;n2): %s — for a few dozen repetitions Compile does not return in practice" % impl[8:]
+        elif impl not in ("cgrowth:ok", "cerr"):
+            j.viol = "compile growth measurement failed: " + impl
+        j.nontrivial = True
     elif prop == "C06":
         if impl not in ("ok", "cerr"):
             j.viol = "Compile/MustCompile did not return exactly one of (expr, error): " + impl
@@ -242,7 +248,7 @@ def judge(prop, f, impl, model, spec):
             judge_value(j, f, impl, model, spec)
     elif prop == "C15" and kind == "growth":
         if impl.startswith("growth:exponential"):
-            j.viol = "drawing the nodes of *P…P costs exponentially more with every predicate P (extra = hex(P);n1;n2): %s — Select does not terminate in practice (out of memory) for a few dozen predicates" % impl[7:]
+            j.viol = "drawing the nodes of *P…P costs exponentially more with every predicate P (expr = P, extra = n1;n2): %s — Select does not terminate in practice (out of memory) for a few dozen predicates" % impl[7:]
         elif impl not in ("growth:ok", "cerr"):
             j.viol = "growth measurement failed: " + impl
         j.nontrivial = True
@@ -414,7 +420,7 @@ def known_match(prop, f, impl, findings, model=None):
         if sig.get("impl_equals_model") and (model is None or impl != model):
             continue
         pat = sig.get("expr_skeleton")
-        if pat and not fnmatch.fnmatchcase(sk, pat):
+        if pat and not any(fnmatch.fnmatchcase(sk, p1) for p1 in (pat if isinstance(pat, list) else [pat])):
             continue
         io = sig.get("impl_outcome")
         if io and not fnmatch.fnmatchcase(ic, io) and not fnmatch.fnmatchcase(impl, io):
